@@ -90,7 +90,7 @@ def map_witnesses(tier):
     sizes = [[n] for n in range(1, 20)] + [[2, 3], [3, 3], [4, 4], [3, 5], [5, 7], [2, 3, 4], [8, 8], [9, 9]]
     for dims in sizes:
         for t in ('f64', 'f32', 'i32', 'i64'):
-            for kind in ('assign_expr', 'iadd', 'imul_scalar', 'self_expr'):
+            for kind in ('assign_expr', 'iadd', 'imul_scalar', 'self_expr', 'iadd_int', 'isub_int', 'imul_int', 'idiv_int', 'idiv_lit'):
                 W.append(c20.mk_map_op(t, dims, kind))
             for kind in ('expr', 'copy', 'sum'):
                 W.append(c20.mk_map_read(t, dims, kind))
@@ -117,6 +117,11 @@ def check(tier, seed):
             W += ws[seed % step::step]
         W += map_witnesses(tier)
         R.run_all(group_sort(W), cfgs, chunk=80)
+        # (2b) the alignment clause as the SOURCE states it: after unrolling, clang -O2 may re-derive a vector access and drop the
+        # alignment the intrinsic demanded (an aligned load directly followed by an unaligned store to the same address comes out as
+        # two unaligned accesses), which other compilers do not do.  At -O1 every vector access still carries the alignment of the
+        # intrinsic that issued it, so the TensorMap corpus (buffers aligned to alignof(T) only) is interpreted at -O1 as well.
+        R.run_all(group_sort(map_witnesses(tier)), [Config(isa, opt='-O1') for isa in ('sse2', 'avx2', 'avx512')], chunk=80)
         # (3) runtime bounds checks: out-of-range indices must raise an error before touching memory
         chk = [Config(isa, macros=('FASTOR_ENABLE_RUNTIME_CHECKS=1',)) for isa in ('sse2', 'avx2', 'avx512')] + [Config('sse2', ndebug=False)]
         R.run_all(group_sort(bounds_witnesses(tier)), chk, chunk=120)
